@@ -34,6 +34,17 @@ CHECKS = {
               "implementation's state for well-formed configurations, and Examples show how it fails outside them."),
         note=COMMON_NOTE + "ipaddress is trusted; dotted-quad conversion is harness glue; reattach_interface modelled without proxy nic; netmask equality modelled on numbers.",
         design="§5 C18"),
+    "C19": dict(
+        engine="corr-pure",
+        technique="Coq proof by case analysis over the finite type product with universally quantified opaque values + exhaustive model/implementation correspondence over that product",
+        text=("Theorems over Model/Tunnel.v for every (local, remote, peer, auth) combination and all network/address/identity values: "
+              "local/remote networks mirror, peer addresses point at each other, PSK identities are swapped, the right-hand types are the "
+              "documented counterpart, a combination is rejected iff it contains an unsupported type; connects_nodes is symmetric whenever "
+              "no membership test raises. The product (with one invalid value per dimension) is enumerated exhaustively against "
+              "VMTunnel.__init__ on every run; connects_nodes is compared on random networks for all ordered node pairs. Two defects "
+              "found this way were repaired (fix: commits 2747ee2, 51512dc); the pinned behaviour is kept as refutation Examples."),
+        note=COMMON_NOTE + "Networks/addresses/ids are opaque values; a netmask mismatch against a custom tunnel end raises IndexError by design and is a hypothesis of the symmetry theorem.",
+        design="§5 C19"),
 }
 
 NOT_YET = "check not built yet (see DESIGN.md §7 build order); no claim is made for this property in this commit"
